@@ -238,6 +238,7 @@ def build_request(mode, argv=(), files=None, faults=(), console=(), sigs=(), env
     w.u32(env.get("fd_limit", 0))
     w.u64(env.get("event_ceiling", 0))
     w.u64(env.get("stdout_ceiling", 0))
+    w.u8(env.get("pass1_xor", 0))
     w.bytes(env.get("cwd", "/sim/w"))
     files = files or {}
     w.u32(len(files))
